@@ -98,6 +98,8 @@ CATALOGUE = {
     "banana6": [(0, 1)] * 6,
     "pentagon": [(0, 1), (1, 2), (2, 3), (3, 4), (4, 0)],
     "sunrise_tadpole": [(0, 1), (0, 1), (0, 1), (1, 1)],
+    "box_doubled": [(0, 1), (0, 1), (1, 2), (2, 3), (3, 0)],
+    "rose3": [(0, 0), (0, 0), (0, 0)],
 }
 
 
@@ -133,9 +135,12 @@ def relabel(rng, edges, extra_vertices=0):
     labels = rng.sample(range(256), nv + extra_vertices)
     if nv >= 2 and rng.random() < 0.3:
         # labels that collide modulo 128 / 64 (bit-mask or narrow-integer vertex sets would alias them)
-        base = rng.randrange(0, 64)
-        pool = [base, base + 128, base + 64, base + 192]
+        # labels that collide modulo a power of two (bit-mask / narrow-integer vertex sets with a wrong mask would alias them)
+        step = rng.choice([8, 16, 32, 64, 128])
+        base = rng.randrange(0, step)
+        pool = [base + k * step for k in range(256 // step)]
         rng.shuffle(pool)
+        pool = pool[:4]
         for i in range(min(nv, len(pool))):
             if pool[i] not in labels[:i] and pool[i] not in labels[i + 1:]:
                 labels[i] = pool[i]
